@@ -17,6 +17,11 @@ class SimHostError(Exception):
     """A custom Exception subclass raised by simulated host functions."""
 
 
+class SimBaseError(BaseException):
+    """A BaseException subclass (like asyncio.CancelledError) raised by simulated FETCH functions only: the
+    library's fetch call sites catch everything, so the fetch counts as failed."""
+
+
 def _exc_classes():
     if not EXC_CLASSES:
         EXC_CLASSES.update({
@@ -26,6 +31,7 @@ def _exc_classes():
             'AttributeError': AttributeError, 'OSError': OSError, 'SimHostError': SimHostError,
             'UnicodeDecodeError': lambda msg: UnicodeDecodeError('utf-8', b'\xff', 0, 1, msg),
             'AssertionError': AssertionError, 'LookupError': LookupError, 'RuntimeError': RuntimeError,
+            'SimBaseError': SimBaseError,
         })
     return EXC_CLASSES
 
@@ -33,6 +39,9 @@ def _exc_classes():
 EXC_NAMES = ('ValueError', 'TypeError', 'KeyError', 'IndexError', 'ZeroDivisionError', 'OverflowError',
              'RecursionError', 'MemoryError', 'StopIteration', 'AttributeError', 'OSError',
              'UnicodeDecodeError', 'SimHostError', 'ValueArgsError')
+
+
+FETCH_EXC_NAMES = tuple(n for n in EXC_NAMES if n != 'ValueArgsError') + ('SimBaseError', 'SimBaseError')
 
 
 def make_exception(name, message, return_value=None):
